@@ -23,7 +23,9 @@ THEOREMS = ['Tbox.C20.C20_weekly_earliest', 'Tbox.C20.C20_weekly_empty_mask', 'T
             'Tbox.C20.C20_destroy_after_calendar_counterexample', 'Tbox.C20.C20_repeated_calls_change_nothing',
             'Tbox.C20.C20_refresh_again_same_target',
             'Tbox.C20.C20_cdo_next_skips_nothing', 'Tbox.C20.C20_cnext_earliest_partial', 'Tbox.C20.C20_cnext_agrees_with_reference',
-            'Tbox.C20.C20_cnext_fuel_counterexample']
+            'Tbox.C20.C20_cnext_fuel_counterexample',
+            'Tbox.C20.C20_arm_reads_clock_once', 'Tbox.C20.C20_delay_not_short_first_reading', 'Tbox.C20.C20_second_reading_counterexample',
+            'Tbox.C20.C20_remain_reads_clock_once']
 SOURCES = ['modules/alarm/alarm.cpp', 'modules/alarm/weekly_alarm.cpp', 'modules/alarm/oneshot_alarm.cpp',
            'modules/alarm/workday_alarm.cpp', 'modules/alarm/workday_calendar.cpp', 'modules/alarm/cron_alarm.cpp',
            'modules/alarm/3rd-party/ccronexpr.cpp'] + vlib.EVENT_SOURCES + vlib.BASE_SOURCES
@@ -53,6 +55,11 @@ TRUSTED = ['model lean/TboxModel/C20/Model.lean hand-written from modules/alarm/
            'which of several due timers the loop serves first is taken from the implementation trace (trace acceptor, as C02)',
            'gettimeofday(): the harness wraps the virtual-clock gettimeofday of harness/vtime.h (compiled under another name) and fails it with EFAULT while the op file says so '
            '(op gtod 0|1, callback acts gt0/gt1); the model takes the answer as the oracle Env.gtod / World.gtod of every step',
+           'the wall clock MOVES while one library call runs (op skew sub_us inc_us step_ms): the first gettimeofday() of a library call answers the virtual wall clock (+ sub_us below the '
+           'millisecond), the k-th later one first + step_ms + k*inc_us; a library call starts at every API call of the harness, every callback-script act, after every user callback and '
+           'whenever the code looked at the monotonic clock (arming the loop timer ends an activeTimer()); the harness\'s own remainSeconds() for the state lines sees the first value.  Model: '
+           'lean/TboxModel/C20/Reads.lean (activeTimerR over an oracle sequence of readings; it consumes one - C20_arm_reads_clock_once); the armed delay is measured exactly by landing '
+           'the monotonic clock on deadline-1 ms (no callback allowed) and deadline (callback required)',
            'the WorkdayCalendar is a heap object of the harness (op caldel frees it): ASan reports any later access through wp_calendar_; the model carries calAlive and the ghost flag uaf; '
            'ops that would make the USER break the contract (caldel while a workday alarm is enabled, enable() of an initialised workday alarm / calendar updates after caldel) are bad-op on both sides']
 ASSUMPTIONS = ['weekly / one-shot / workday arming theorems: the local computation stays below 2^32 (t + 9 d <= 2^32 weekly, t + 368 d workday, `InRange` for arming) - beyond it the uint32 sums of '
@@ -79,6 +86,7 @@ RULE = ('(1) pure: calculateNextLocalTimeSec of weekly/oneshot/workday probes on
         'clock advances landing at target-1ms/target/target+1ms, monotonic-ahead skew, wall-clock jumps, distances up to > 1 year; (3) cron_next of the '
         'third-party evaluator against the reference on generated expressions (lists/ranges/steps/*) with t at month/year/leap boundaries; (4) op cx: raw expression strings (names in any case, ?, hex/octal/signed numbers, white space, field-count and 256-character limits, rejected items) through the real cron_parse_expr at every start alignment, bit sets compared as M lines; (5) width families: tv_sec at 2^31 / 2^32, local time before 1970, zone offsets up to the int limit, seconds_of_day at the int limits; '
         '(6) state-derived follow-ups on one armed object: the same specification / zone / calendar / enable / refresh again, refresh at the armed instant, backward jump onto the served instant; (7) fault schedules: gettimeofday failing during enable / refresh / expiry / calendar update (also switched from inside callbacks), and the calendar destroyed before alarms that are not enabled (never enabled, disabled, failed enable, idle after a failed re-arm); '
+        '(8) clock readings: a second boundary / an NTP step of +1 s, +1 h, -1 s between two looks at the clock inside one arming (usec classes 999900, 999999, 000000, 000001; instants 1 s, 2 s, 1 min, 1 h, 1 day away; enable, refresh, calendar update, re-arm of an expiry, refresh from inside the callback), delay measured to the millisecond; '
         'non-trivial = a callback fired (on time, early or late), or an arm farther than 2^32 ms, or a scan that went past today; distinct = distinct op text')
 
 D = 86400
@@ -728,13 +736,51 @@ def gen_faults(rng):
     return ops
 
 
+def gen_reads(rng, directed=None):
+    """the wall clock MOVES between two looks at it inside one library call (op `skew sub_us inc_us step_ms`): the first gettimeofday() of a
+    call answers S.<ms><sub>, every later one first + step + k*inc - a second boundary passes (999900 +200 us, 999999 +1 us), the clock stands
+    on the boundary (000000, 000001), an NTP step of +1 s / +1 h / -1 s falls between the readings.  Arming by enable(), refresh(), a calendar
+    update, the re-arm of an expiry and a refresh from inside the callback; instants 1 s / 2 s / 1 min / 1 h / 1 day after the first reading's
+    second; the armed delay is then measured exactly: `mono d-1` must not fire, `mono 1` must (d = 1000*(T - S) - ms of the FIRST reading)"""
+    if directed:
+        ms, sub, inc, step, dist, kind, path, tzm = directed
+    else:
+        ms, sub = rng.choice([(999, 900), (999, 999), (0, 0), (0, 1), (999, 0), (rng.randrange(1000), rng.randrange(1000))])
+        inc = rng.choice([200, 200, 1, 100, 1000, 0, 999999])
+        step = rng.choice([0, 0, 0, 1000, 3600000, -1000, 1, -1])
+        if inc == 0 and step == 0: inc = 200
+        dist = rng.choice([1, 1, 2, 2, 60, 3600, D])
+        kind = rng.choice(['os', 'wk', 'wd', 'cr'])
+        path = rng.choice(['en', 'en', 'rf', 'expiry', 'cal', 'script-rf'])
+        tzm = rng.choice([0, 0, 480, -300, 330])
+    if path == 'cal': kind = 'wd'
+    if path in ('expiry', 'script-rf') and kind == 'os': kind = 'wk'
+    S = rng.randrange(10, 40000) * D + rng.randrange(D)
+    T = S + dist
+    a = {'kind': kind, 'sod': (T + tzm * 60) % D, 'mask': 127, 'wd': True}
+    d = dist * 1000 - ms
+    k = {'os': 'os', 'wk': 'wk', 'wd': 'wd', 'cr': 'cr'}[kind]
+    ops = ['calmask 127', 'new 0 %s%s' % (k, ' rf0' if path == 'script-rf' else ''), 'tz 0 %d' % tzm, init_line(0, a)]
+    skew = 'skew %d %d %d' % (sub, inc, step)
+    later = (rng.random() < 0.25) if not directed else (dist == 2 and step == 0)
+    if later: ops += ['gtlater 1']          # every reading after the first one of a library call FAILS
+    if path == 'en':
+        ops += ['wall %d' % (S * 1000 + ms), skew, 'en 0']
+    elif path in ('rf', 'cal'):
+        ops += ['wall %d' % ((S - 5) * 1000), 'en 0', 'wall %d' % (S * 1000 + ms), skew, 'rf 0' if path == 'rf' else 'calmask 127']
+    else:             # the previous day's instant T - D is served while the wall clock reads S.<ms>: the re-arm is the arming under test
+        ops += ['wall %d' % ((T - D - 3) * 1000), 'en 0', 'wall %d' % (S * 1000 + ms), skew, 'mono 3000']
+    ops += ['mono %d' % (d - 1), 'mono 1', 'en 0', 'skew 0 0 0', 'gtlater 0', 'adv %d' % (D * 1000)]
+    return ops
+
+
 def gen(rng, tier):
     n = 250 if tier == 'quick' else 4000
     # malformed stream: both sides must answer bad-op
     yield ['wk 1 1111111', 'wk x 1111111 5', 'wk 1 1111112 5', 'wk 1 1111111 4294967296', 'os 1', 'wd 1 2 62 - 5', 'wd 1 1 256 - 5',
            'wd 1 1 62 5:2 5', 'wd 1 1 62 5:1, 5', 'new 4 wk', 'new 0 cron', 'en 0', 'new 0 wk', 'new 0 wk', 'init 0 1 1111111', 'init 0 abc 1111111 1',
            'tz 0 1441', 'tz 0 -1441', 'tz 0 05', 'adv 007', 'new 1 wk cl9', 'new 1 wk tz0', 'new 1 wk tz0:1441', 'new 1 wk in0:5:1111111', 'new 1 wk in0:5:2:1', 'new 1 cron', 'initc 0 * * * * *', 'initc 9 * * * * * *', 'initc 0 * * * * * MON', 'new 1 wk del1', 'new 1 wk rf9', 'new 1 wk rf0,,rf0', 'new 1 wk cs5:1+', 'cron * * * * *  5',
-           'cron * * * * * * x', 'cron 08 * * * * * 5', 'cron 1-2-3 * * * * * 5', 'cron 1//2 * * * * * 5', 'cron */x * * * * * 5', 'cron , * * * * * 5', 'cron MON * * * * * 5', 'cx 8 2a 5', 'cx 0 2 5', 'cx 0 00 5', 'cx 0 80 5', 'cx 0 zz 5', 'cx 0 - 5', 'cx 0 2a 4294967296', 'initx 0 zz', 'initx 9 2a', 'new 1 cr ic0', 'new 1 cr ic0:zz', 'new 1 cr ic9:2a', 'tz 0 35791395', 'tz 0 -35791395', 'init 0 2147483648 1111111 1', 'init 0 -2147483649 1111111 1', 'del 2', 'adv -1', 'adv 40000000001', 'wall 4294967296000', 'calmask 256', 'calsp 5', 'frob', 'dis 3', 'rf 2', 'cb 1', 'gtod 2', 'gtod', 'caldel 1', 'new 1 wk gt2', 'new 1 wk gt']
+           'cron * * * * * * x', 'cron 08 * * * * * 5', 'cron 1-2-3 * * * * * 5', 'cron 1//2 * * * * * 5', 'cron */x * * * * * 5', 'cron , * * * * * 5', 'cron MON * * * * * 5', 'cx 8 2a 5', 'cx 0 2 5', 'cx 0 00 5', 'cx 0 80 5', 'cx 0 zz 5', 'cx 0 - 5', 'cx 0 2a 4294967296', 'initx 0 zz', 'initx 9 2a', 'new 1 cr ic0', 'new 1 cr ic0:zz', 'new 1 cr ic9:2a', 'tz 0 35791395', 'tz 0 -35791395', 'init 0 2147483648 1111111 1', 'init 0 -2147483649 1111111 1', 'del 2', 'adv -1', 'adv 40000000001', 'wall 4294967296000', 'calmask 256', 'calsp 5', 'frob', 'dis 3', 'rf 2', 'cb 1', 'gtod 2', 'skew 1000 0 0', 'skew 0 10000001 0', 'skew 0 0 4000001', 'skew 0 0', 'skew 0 0 +1', 'skew 00 0 0', 'gtlater 2', 'gtlater', 'gtod', 'caldel 1', 'new 1 wk gt2', 'new 1 wk gt']
     # directed
     yield ['wk 36000 1111111 1700000000', 'wk 0 0000000 1700000000', 'wk 86399 0000100 1699999999', 'os 0 86399', 'os 0 86400',
            'wd 30600 1 62 - 1700000000', 'wd 30600 1 0 - 1700000000', 'wd 0 1 0 20042:1 1700000000', 'wd 0 1 0 20043:1 1700000000']
@@ -757,6 +803,14 @@ def gen(rng, tier):
     # destruction: enabled workday alarm, and one whose enable() failed, then a calendar update
     yield ['new 0 wd', 'init 0 100 - 1', 'en 0', 'del 0', 'calmask 62', 'calmask 0', 'new 0 wd', 'init 0 100 - 1', 'en 0', 'del 0', 'calsp -']
     yield ['new 0 wd del1,cm0', 'new 1 wd', 'init 0 100 - 1', 'init 1 200 - 1', 'en 0', 'en 1', 'adv 86400000', 'calmask 62']
+    # every usec class x crossing increment x NTP step, instants 1 s and 2 s away, through enable() and through the re-arm of an expiry
+    for (ms, sub, inc) in [(999, 900, 200), (999, 999, 1), (0, 0, 200), (0, 1, 200)]:
+        for step in [0, 1000, 3600000, -1000]:
+            for dist in [1, 2, 3600]:
+                yield gen_reads(rng, (ms, sub, inc, step, dist, 'os' if dist != 3600 else 'cr', 'en', 0))
+            yield gen_reads(rng, (ms, sub, inc, step, 1, 'cr', 'expiry', 0))
+    for _ in range(n // 2):
+        yield gen_reads(rng)
     for _ in range(n):
         yield gen_pure(rng)
     for _ in range(n):
@@ -781,7 +835,7 @@ def gen(rng, tier):
 
 def nontrivial(ops, model_lines):
     tags = ' '.join(l for l in model_lines if l.startswith('B '))
-    keys = ('clock-failure', 'calendar-destroyed', 'same-again', 'refresh-same-target', 'cx-next', 'cx-none', 'initx-ok', 'cron-none-year-horizon', 'cron-4-years', 'cron-years', 'cron-enable', 'fire-', 'arm-far', 'rearm-far', 'wk-week', 'wd-week', 'wd-far', 'wd-weeks', 'os-week', 'cron-month', 'cron-year', 'cron-day', 'destroy-subscribed', 'script-run')
+    keys = ('skew-', 'clock-failure', 'calendar-destroyed', 'same-again', 'refresh-same-target', 'cx-next', 'cx-none', 'initx-ok', 'cron-none-year-horizon', 'cron-4-years', 'cron-years', 'cron-enable', 'fire-', 'arm-far', 'rearm-far', 'wk-week', 'wd-week', 'wd-far', 'wd-weeks', 'os-week', 'cron-month', 'cron-year', 'cron-day', 'destroy-subscribed', 'script-run')
     return 1 if any(k in tags for k in keys) else None
 
 
